@@ -327,14 +327,29 @@ Section Bandwidth.
   Proof.
     move=> cov s Hc Hs. rewrite oas_prog_formula -/cov -/s.
     set psi := oas_psi 1 env.
-    have Hcov : cov = (cov ord0 ord0)%:M by exact: mx11_scalar.
+    have Hcov : cov = (cov ord0 ord0) *: 1%:M by rewrite scalemx1; exact: mx11_scalar.
     have Htr : \tr cov = cov ord0 ord0 by rewrite /mxtrace big_ord_recl big_ord0 addr0.
     have -> : psi *: cov + ((1 - psi) * (\tr cov / 1%:R)) *: 1%:M = (cov ord0 ord0) *: 1%:M.
-      rewrite Htr divr1 {1}Hcov -!scalemx1 !scalerA -scalerDl. congr (_ *: _).
+      rewrite Htr divr1 {1}Hcov scalerA -scalerDl. congr (_ *: _).
       by rewrite -mulrDl addrC subrK mul1r.
-    split; first by rewrite !linearZ /= trmx1.
-    move=> x Hx. rewrite -!scalemxAr -!scalemxAl mulmx1 !mxE.
-    by apply: mulr_gt0 => //; apply: mulr_gt0 => //; exact: rv_sq_gt0.
+    split; first by rewrite scalerA scalemx1 tr_scalar_mx.
+    move=> x Hx. rewrite -!scalemxAr -!scalemxAl mulmx1 [X in 0 < X]mxE.
+    apply: mulr_gt0 => //. rewrite [X in 0 < X]mxE.
+    by apply: mulr_gt0 => //; exact: rv_sq_gt0.
+  Qed.
+
+  (* a weighted Gram matrix is symmetric positive semi-definite *)
+  Lemma gram_psd (n D : nat) (P : 'cV[F]_n) (Xc : 'M[F]_(n, D)) (cinv : F) :
+    (forall i, 0 <= P i ord0) -> 0 <= cinv ->
+    psd (cinv *: ((diag_mx P^T *m Xc)^T *m Xc)).
+  Proof.
+    move=> HP Hc x. rewrite -scalemxAr -scalemxAl mxE.
+    apply: mulr_ge0 => //.
+    rewrite trmx_mul tr_diag_mx !mulmxA.
+    have -> : x *m Xc^T = (Xc *m x^T)^T by rewrite trmx_mul trmxK.
+    set y := Xc *m x^T. rewrite -[_ *m Xc *m x^T]mulmxA -/y mul_mx_diag mxE.
+    apply: sumr_ge0 => j _. rewrite !mxE mulrAC -expr2.
+    by apply: mulr_ge0; [rewrite sqr_ge0 | exact: HP].
   Qed.
 
   (* ---- cov_prog ------------------------------------------------------------------------------- *)
@@ -347,7 +362,7 @@ Section Bandwidth.
     (* the free-space covariance is  (1 - sum p^2)^-1 Xc^T diag(p) Xc *)
     Lemma cov_prog_formula :
       eval_mx env (cov_prog n D) = c^-1 *: ((diag_mx P^T *m Xc)^T *m Xc).
-    Proof. by rewrite [LHS]/= !mxE. Qed.
+    Proof. rewrite /cov_prog ev_scale /m_recip sv_map. reflexivity. Qed.
 
     Lemma cov_prog_sym : (eval_mx env (cov_prog n D))^T = eval_mx env (cov_prog n D).
     Proof.
@@ -357,12 +372,7 @@ Section Bandwidth.
     Lemma cov_prog_psd :
       (forall i, 0 <= P i ord0) -> 0 < c -> psd (eval_mx env (cov_prog n D)).
     Proof.
-      move=> HP Hc x. rewrite cov_prog_formula -scalemxAr -scalemxAl mxE.
-      apply: mulr_ge0; first by rewrite invr_ge0 ltW.
-      rewrite trmx_mul tr_diag_mx !mulmxA -[x *m Xc^T]trmxK trmx_mul trmxK.
-      set y := Xc *m x^T. rewrite -mulmxA mul_mx_diag mxE.
-      apply: sumr_ge0 => j _. rewrite !mxE mulrAC -expr2.
-      by apply: mulr_ge0; [rewrite sqr_ge0 | exact: HP].
+      move=> HP Hc. rewrite cov_prog_formula. apply: gram_psd => //. by rewrite invr_ge0 ltW.
     Qed.
 
     (* the normalised weights: p = w / totw *)
@@ -375,8 +385,9 @@ Section Bandwidth.
 
     Lemma cov_prog_cE : c = 1 - \sum_i P i ord0 * P i ord0.
     Proof.
-      rewrite /c /= !mxE /=. congr (_ - _).
-      by apply: eq_bigr => i _; rewrite mxE.
+      rewrite /c -/(sv env (cp_c n)) /cp_c sv_sub sv_const /= /sv.
+      have -> : eval_mx env (MMul (MTr (cp_p n)) (cp_p n)) = P^T *m P by [].
+      rewrite mxE. congr (_ - _). by apply: eq_bigr => i _; rewrite mxE.
     Qed.
   End Cov.
 
@@ -386,7 +397,7 @@ Section Bandwidth.
     (forall i, 0 <= p i) -> \sum_i p i = 1 -> i0 != j0 -> 0 < p i0 -> 0 < p j0 ->
     0 < 1 - \sum_i p i * p i.
   Proof.
-    move=> Hp Hs Hij Hi Hj. rewrite subr_gt0 -{2}Hs.
+    move=> Hp Hs Hij Hi Hj. rewrite subr_gt0 -[X in _ < X]Hs.
     have Hle1 i : p i <= 1.
       by rewrite -Hs (bigD1 i) //= ler_addl; apply: sumr_ge0.
     have Hi1 : p i0 < 1.
@@ -396,5 +407,65 @@ Section Bandwidth.
     apply: ltr_le_add.
       by rewrite -{3}[p i0]mulr1 ltr_pmul2l.
     apply: ler_sum => i _. by rewrite -{3}[p i]mulr1 ler_wpmul2l.
+  Qed.
+  (* free space, from the raw local weights: non-negative local weights of which two are positive
+     ("the localisation reaches at least one other grid point"), a positive trace (the reached
+     grid points do not all coincide), at least two dimensions: the bandwidth is symmetric positive
+     definite, whatever the local population and the effective dimension are *)
+  Lemma bandwidth_spd_free (n D : nat) (envC envO : env_mx F) (i0 j0 : 'I_n) :
+    let w : 'cV[F]_n := envC n 1%N 1%N in
+    (forall i, 0 <= w i ord0) -> i0 != j0 -> 0 < w i0 ord0 -> 0 < w j0 ord0 ->
+    envO D D 0%N = eval_mx envC (cov_prog n D) ->
+    (2 <= D)%N -> 0 < \tr (envO D D 0%N) -> 0 < (envO 1%N 1%N 2%N) ord0 ord0 ->
+    (eval_mx envO (oas_prog D))^T = eval_mx envO (oas_prog D) /\ pd (eval_mx envO (oas_prog D)).
+  Proof.
+    move=> w Hw Hij Hi Hj Hcov HD Htr Hs.
+    have Htot : 0 < \sum_k w k ord0.
+      rewrite (bigD1 i0) //=. apply: ltr_paddr => //. by apply: sumr_ge0.
+    have Hp0 i : 0 <= eval_mx envC (cp_p n) i ord0.
+      by rewrite cov_prog_pE; apply: mulr_ge0 => //; rewrite invr_ge0 ltW.
+    have Hc : 0 < eval_mx envC (cp_c n) ord0 ord0.
+      rewrite cov_prog_cE.
+      apply: (@reach_pos n (fun i => eval_mx envC (cp_p n) i ord0) i0 j0) => //.
+      - under eq_bigr => i _ do rewrite cov_prog_pE.
+        by rewrite -mulr_sumr mulVf // gt_eqF.
+      - by rewrite cov_prog_pE; apply: mulr_gt0 => //; rewrite invr_gt0.
+      - by rewrite cov_prog_pE; apply: mulr_gt0 => //; rewrite invr_gt0.
+    apply: bandwidth_spd => //.
+    - by rewrite Hcov cov_prog_sym.
+    - by rewrite Hcov; apply: cov_prog_psd.
+  Qed.
+  Lemma covariance_psd (n D : nat) (env : env_mx F) :
+    (eval_mx env (cov_prog n D))^T = eval_mx env (cov_prog n D) /\
+    ((forall i : 'I_n, 0 <= eval_mx env (cp_p n) i ord0) ->
+     0 < eval_mx env (cp_c n) ord0 ord0 -> psd (eval_mx env (cov_prog n D))).
+  Proof. split; [exact: cov_prog_sym | exact: cov_prog_psd]. Qed.
+
+  Lemma bandwidth_spd_full (D : nat) (env : env_mx F) :
+    (2 <= D)%N ->
+    (env D D 0%N)^T = env D D 0%N -> psd (env D D 0%N) -> 0 < \tr (env D D 0%N) ->
+    0 < (env 1%N 1%N 2%N) ord0 ord0 ->
+    0 <= oas_psi D env < 1 /\
+    eval_mx env (oas_prog D) =
+      (env 1%N 1%N 2%N) ord0 ord0 *:
+        (oas_psi D env *: env D D 0%N
+         + ((1 - oas_psi D env) * (\tr (env D D 0%N) / D%:R)) *: 1%:M) /\
+    (eval_mx env (oas_prog D))^T = eval_mx env (oas_prog D) /\ pd (eval_mx env (oas_prog D)).
+  Proof.
+    move=> HD Hs Hp Ht Hpos; split; [exact: oas_psi_range | split; [exact: oas_prog_formula|]].
+    exact: bandwidth_spd.
+  Qed.
+
+  Lemma nonvacuous_bandwidth :
+    exists env : env_mx F,
+      (env 2%N 2%N 0%N)^T = env 2%N 2%N 0%N /\ psd (env 2%N 2%N 0%N) /\ 0 < \tr (env 2%N 2%N 0%N) /\
+      0 < (env 1%N 1%N 2%N) ord0 ord0.
+  Proof.
+    exists (fun (m n k : nat) => if k is 0%N then \matrix_(i, j) (((i : nat) == (j : nat))%:R) else const_mx 1).
+    have E : (\matrix_(i < 2, j < 2) (((i : nat) == (j : nat))%:R : F)) = 1%:M.
+      by apply/matrixP => i j; rewrite !mxE.
+    rewrite E; split; first by rewrite trmx1.
+    split; first by move=> x; rewrite mulmx1; exact: rv_sq_ge0.
+    by rewrite mxtrace1 mxE ltr0n ltr01.
   Qed.
 End Bandwidth.
